@@ -1,25 +1,41 @@
 #!/bin/sh
 # usage: seed_eval.sh <seed-dir-under-/verif/seeded> <property> [more properties...]
-# Applies /verif/seeded/<dir>/patch.diff to /repo, runs the quick check(s), undoes the patch.
+#
+# Sensitivity experiment: runs the quick check(s) against a scratch worktree of
+# /repo that carries /verif/seeded/<dir>/patch.diff, from a snapshot of /verif's
+# working tree. Neither /repo nor /verif (evidence, replays, build) is touched,
+# so several of these can run next to each other and next to normal work.
 # Prints one line per property: CAUGHT / MISSED / BROKEN(exit 2).
+# Environment: SEED_BUDGET_MS (default 45000), SEED_TIER (default quick),
+# SEED_KEEP=1 keeps the snapshot (with its replay files) for inspection.
 set -u
-dir="/verif/seeded/$1"; shift
+name="$1"; shift
+dir="/verif/seeded/$name"
 [ -f "$dir/patch.diff" ] || { echo "no patch in $dir"; exit 2; }
-cd /repo || exit 2
-if ! git diff --quiet; then echo "/repo has uncommitted changes"; exit 2; fi
-git apply --check "$dir/patch.diff" || { echo "patch does not apply to current /repo"; exit 2; }
-git apply "$dir/patch.diff"
-# the evidence written while the patch is applied describes a changed tree: keep the files of the unchanged tree
-ev=$(mktemp -d /tmp/seed_ev.XXXXXX); cp /verif/evidence/*.json "$ev"/ 2>/dev/null
-trap 'git -C /repo checkout -- . ; cp "$ev"/*.json /verif/evidence/ 2>/dev/null; rm -rf "$ev"; find /verif/replays -name "*.json" -newer "$dir/patch.diff" -mmin -30 -delete 2>/dev/null' EXIT
-cd /verif
+tag="$name-$$"
+snap="/tmp/vsnap-$tag"
+wt="/tmp/seedwt-$tag"
+cleanup() {
+  git -C /repo worktree remove --force "$wt" >/dev/null 2>&1
+  rm -rf "$wt"
+  [ -n "${SEED_KEEP:-}" ] || rm -rf "$snap"
+  rm -rf /tmp/elksim-*"$(printf '%s' "$snap|$wt" | sha256sum | cut -c1-8)"
+}
+trap cleanup EXIT
+git -C /repo worktree add --detach "$wt" HEAD >/dev/null 2>&1 || { echo "cannot create worktree"; exit 2; }
+git -C "$wt" apply "$dir/patch.diff" || { echo "patch does not apply to /repo HEAD"; exit 2; }
+mkdir -p "$snap"
+rsync -a --exclude .git --exclude /build --exclude /bin --exclude /replays --exclude /evidence /verif/ "$snap"/
+export VCHECK_DIR="$snap" VCHECK_REPO="$wt"
+sh "$snap/setup.sh" > "$snap/setup.log" 2>&1 || { echo "BROKEN setup: $(tail -5 "$snap/setup.log" | tr '\n' ' ' | cut -c1-400)"; exit 2; }
+cd "$snap"
 for prop in "$@"; do
-  out="/tmp/seed_$(basename "$dir")_$prop.out"
-  VERIF_BUDGET_MS="${SEED_BUDGET_MS:-45000}" ./bin/vcheck run "$prop" --tier quick > "$out" 2>&1
+  out="/tmp/seed_${name}_$prop.out"
+  VERIF_BUDGET_MS="${SEED_BUDGET_MS:-45000}" ./bin/vcheck run "$prop" --tier "${SEED_TIER:-quick}" > "$out" 2>&1
   rc=$?
   case $rc in
-    1) echo "$prop CAUGHT: $(grep -c '^VIOLATION' "$out") violation line(s); $(grep '^--- violation' "$out" | head -1 | cut -c1-200)";;
-    0) echo "$prop MISSED: $(grep '^vcheck: C' "$out" | cut -c1-200)";;
-    *) echo "$prop BROKEN exit=$rc: $(tail -3 "$out" | tr '\n' ' ' | cut -c1-300)";;
+    1) echo "$name $prop CAUGHT: $(grep -c '^VIOLATION' "$out") violation line(s); $(grep '^--- violation\|^--- worker' "$out" | head -1 | cut -c1-220)";;
+    0) echo "$name $prop MISSED: $(grep '^vcheck: C' "$out" | cut -c1-200)";;
+    *) echo "$name $prop BROKEN exit=$rc: $(tail -3 "$out" | tr '\n' ' ' | cut -c1-300)";;
   esac
 done
